@@ -24,6 +24,7 @@ type PropSpec struct {
 	NotCovered  []string `json:"not_covered"`
 	Assumptions []string `json:"assumptions"`
 	Bounded     []string `json:"bounded"`
+	Storelab    []string `json:"storelab"` // L0 functions checked (bounded) on real SQLite against reference oracles
 }
 
 type Result struct {
@@ -307,7 +308,59 @@ func cmdCheck(args []string) int {
 		}(r)
 	}
 	wg.Wait()
+	slRes := runStorelab(*verif, *repo, ps, *tier, work)
+	storelabResults = slRes
 	return report(*verif, *repo, ps, *tier, *seed, results, reports, genErrors, sp, start, loadS, genS, *noEvidence)
+}
+
+type storelabResult struct {
+	Lines      []string
+	Mismatches []string
+	Error      string
+	N          int
+	WallS      float64
+}
+
+var storelabResults *storelabResult
+
+// runStorelab: bounded conformance of trusted L0 functions on the real SQLite stack (DESIGN 3.9).
+func runStorelab(verif, repo string, ps *PropSpec, tier, work string) *storelabResult {
+	if len(ps.Storelab) == 0 {
+		return nil
+	}
+	res := &storelabResult{N: 4}
+	if tier == "thorough" {
+		res.N = 5
+	}
+	start := time.Now()
+	ov := map[string]map[string]string{"Replace": {filepath.Join(repo, "database", "zz_storelab_test.go"): filepath.Join(verif, "storelab", "storelab_test.go.txt")}}
+	ob, _ := json.Marshal(ov)
+	ovf := filepath.Join(work, "storelab_overlay.json")
+	os.WriteFile(ovf, ob, 0o644)
+	ctx, cancel := context.WithTimeout(context.Background(), 1500*time.Second)
+	defer cancel()
+	cmd := exec.CommandContext(ctx, "go", "test", "-overlay", ovf, "-vet=off", "-count=1", "-v", "-timeout", "1400s", "-run", "^TestStorelab$", "./database/")
+	cmd.Dir = repo
+	cmd.Env = append(os.Environ(), "GOFLAGS=-mod=mod", "GOPROXY=off", fmt.Sprintf("STORELAB_N=%d", res.N), "STORELAB_SCHEMA="+filepath.Join(repo, "database", "migrations"), "STORELAB_FUNCS="+strings.Join(ps.Storelab, ","))
+	out, _ := cmd.CombinedOutput()
+	seen := map[string]bool{}
+	for _, l := range strings.Split(string(out), "\n") {
+		l = strings.TrimSpace(l)
+		if strings.HasPrefix(l, "STORELAB-MISMATCH ") {
+			res.Mismatches = append(res.Mismatches, l)
+		} else if strings.HasPrefix(l, "STORELAB func=") {
+			res.Lines = append(res.Lines, l)
+			f := strings.Fields(l)[1]
+			seen[strings.TrimPrefix(f, "func=")] = true
+		}
+	}
+	for _, f := range ps.Storelab {
+		if !seen[f] {
+			res.Error = "storelab produced no result for " + f + ": " + tail(string(out), 600)
+		}
+	}
+	res.WallS = time.Since(start).Seconds()
+	return res
 }
 
 func stripLastAssert(text string) string {
@@ -398,6 +451,24 @@ func report(verif, repo string, ps *PropSpec, tier string, seed int, results []*
 		}
 		lines = append(lines, fmt.Sprintf("VIOLATION property=%s replay=%s obligation=%s%s", ps.ID, file, name, suffix))
 	}
+	var boundedEv []string
+	boundedEv = append(boundedEv, ps.Bounded...)
+	if sl := storelabResults; sl != nil {
+		for _, l := range sl.Lines {
+			boundedEv = append(boundedEv, "BOUNDED (real SQLite, reference oracle written from the L0 contract): "+l)
+		}
+		if sl.Error != "" {
+			emitViolation("storelab/run", map[string]interface{}{"obligation": "storelab/run", "reason": "the bounded conformance run did not complete", "detail": sl.Error}, false)
+		}
+		byFunc := map[string][]string{}
+		for _, m := range sl.Mismatches {
+			f := strings.TrimPrefix(strings.Fields(m)[1], "func=")
+			byFunc[f] = append(byFunc[f], m)
+		}
+		for f, ms := range byFunc {
+			emitViolation("storelab/"+f, map[string]interface{}{"obligation": "storelab/" + f, "kind": "bounded-conformance", "reason": "the real function, run on a real SQLite database, disagrees with the oracle of its assumed (trusted) contract on a concrete table: the proofs that assume this contract no longer apply", "failing_cases": ms, "replay_verdict": "confirmed-on-real-code (the mismatch is an execution of the real function)"}, true)
+		}
+	}
 	for _, e := range genErrors {
 		name := "generation/" + strings.SplitN(e, ":", 2)[0]
 		emitViolation(name, map[string]interface{}{"obligation": name, "reason": "the function is no longer inside the verified subset or its contract no longer applies; no obligation can be discharged", "detail": e}, false)
@@ -486,7 +557,7 @@ func report(verif, repo string, ps *PropSpec, tier string, seed int, results []*
 			"unmodelled_calls":         keysOf(unmod),
 			"inlined_real_bodies":      keysOf(inl),
 			"not_covered":              ps.NotCovered,
-			"bounded":                  ps.Bounded,
+			"bounded":                  boundedEv,
 			"known_findings_matched":   knownHits,
 			"samples":                  samples,
 			"contract_files":           relFiles(sp.Files, verif, repo),
